@@ -31,7 +31,10 @@ GARBAGE = ["garbage", "", " ", "  ", "\t", "= =", "0 = ", "  0 = Q 1 2", "[Foo]"
            "  10 = N 5", "  10 = S 2", "0", "N 0 0", "  0 = TS x", "  0 = A -5", "  0 == B 5",
            "100%", "  0 = N 0 0 %s", "%d garbage %(x)s", "  5 = E 100%done now", "%", "%%", "  0 = Q %s %s",
            "  0 = N 34 0", "  0 = N 67 0", "  0 = N 45 1", "  0 = N 01 0", "  0 = N 12 96", "  0 = N 0123 0", "  0 = N 07 0", "  0 = N  96", "  0 = S 02 5",
-           "  0 = S 12 5", "  0 = S 22 5", "  0 = S  5", "  0 = TS  4", "  0 = B  5"]
+           "  0 = S 12 5", "  0 = S 22 5", "  0 = S  5", "  0 = TS  4", "  0 = B  5",
+           # number forms that int() accepts and the format does not have: digit grouping, explicit signs, surrounding blanks inside
+           "  7_68 = N 4 0", "  1000 = N 0 1_0", "  +768 = N 3 0", "  768 = N +3 0", "  768 = S 2 +5", "  1_0 = B 120000", "  0 = B 120_000",
+           "  0 = TS +4", "  0 = A 1_000", "  -5 = N 0 0", "  768 = N 0 -5", "  0 = B +120000", "  1e2 = N 0 0", "  0x10 = N 0 0", "  768 = N 0 1.0"]
 
 
 VARIANTS = {
